@@ -32,15 +32,19 @@ _Bool __CPROVER_uninterpreted_prodok(int64_t, int64_t, int64_t, int64_t);
 #define NV_SIZE_OF(d) ((d)[0])
 #define NV_EXACT_OF(d) ((d)[0] >= 0)
 #define NV_NONNEG(d) ((d)[0] >= 0)
+#define NV_HASZERO(d) ((d)[0] == 0)
 #elif NV_RANK == 2
 #define NV_DIMS4(f, d) f((d)[0], (d)[1], 0, 0)
 #define NV_NONNEG(d) ((d)[0] >= 0 && (d)[1] >= 0)
+#define NV_HASZERO(d) ((d)[0] == 0 || (d)[1] == 0)
 #elif NV_RANK == 3
 #define NV_DIMS4(f, d) f((d)[0], (d)[1], (d)[2], 0)
 #define NV_NONNEG(d) ((d)[0] >= 0 && (d)[1] >= 0 && (d)[2] >= 0)
+#define NV_HASZERO(d) ((d)[0] == 0 || (d)[1] == 0 || (d)[2] == 0)
 #elif NV_RANK == 4
 #define NV_DIMS4(f, d) f((d)[0], (d)[1], (d)[2], (d)[3])
 #define NV_NONNEG(d) ((d)[0] >= 0 && (d)[1] >= 0 && (d)[2] >= 0 && (d)[3] >= 0)
+#define NV_HASZERO(d) ((d)[0] == 0 || (d)[1] == 0 || (d)[2] == 0 || (d)[3] == 0)
 #else
 #error "rank > 4 not instantiated"
 #endif
@@ -98,6 +102,10 @@ static void nv_tensor_resize(struct nv_tensor* t, const struct nv_dims* dims)
 #endif
     if (g) __CPROVER_assume(exact && p == run && p <= NV_M);
   }
+  /* ARITHMETIC FACT (true of the integers and of two's complement products, also when an intermediate product wraps): non-negative
+   * dimensions one of which is 0 multiply to 0.  Needed since the repair of the reader's guard (empty tensors skip the overflow
+   * guard, FINDING_empty_tensor_rejected.md): an empty shape with huge leading dimensions now reaches resize. */
+  if (NV_NONNEG(dims->d) && NV_HASZERO(dims->d)) __CPROVER_assume(exact && p == 0);
   t->m_dims = *dims;
   t->size = p;
   nv_size_exact = exact;
